@@ -669,10 +669,23 @@ impl Ctx {
         for (k, v) in &self.stats.extra {
             coverage.insert(k.clone(), v.clone());
         }
-        if let Ok(p) = std::env::var("VERIF_FUZZ_STATS") {
-            if let Ok(txt) = std::fs::read_to_string(&p) {
-                if let Ok(v) = serde_json::from_str::<Value>(&txt) {
-                    coverage.insert("fuzz_campaign".into(), v);
+        if let Ok(list) = std::env::var("VERIF_FUZZ_STATS") {
+            // one stats file per campaign (colon-separated)
+            let mut all = vec![];
+            for p in list.split(':').filter(|p| !p.is_empty()) {
+                if let Ok(txt) = std::fs::read_to_string(p) {
+                    if let Ok(v) = serde_json::from_str::<Value>(&txt) {
+                        all.push(v);
+                    }
+                }
+            }
+            match all.len() {
+                0 => {}
+                1 => {
+                    coverage.insert("fuzz_campaign".into(), all.pop().unwrap());
+                }
+                _ => {
+                    coverage.insert("fuzz_campaigns".into(), Value::Array(all));
                 }
             }
         }
